@@ -290,9 +290,11 @@ class MetadataBase(object):
         :type f: file or str
         """
         self.validate()
+        # serialize (and thereby validate all nested objects) before the
+        # destination is opened, so a failure does not truncate the file
+        parser = self._get_parser()
+        self.serialize(parser)
         with open_file_obj(f, "w") as f:
-            parser = self._get_parser()
-            self.serialize(parser)
             self.build_file(parser, f)
 
     def dumps(self):
